@@ -273,6 +273,10 @@ def labels_for(shape, mode=0):
     return [5] * n
 
 
+ALL3 = [list(s) for s in itertools.product([1, 2, 3], repeat=3)]
+ALL4 = [list(s) for s in itertools.product([1, 2, 3], repeat=4)]
+
+
 def gen_valid():
     for present in (True, False):
         for dt in DTYPES:
@@ -296,8 +300,8 @@ def gen_axes_match():
 
 
 def gen_in_bounds(ck):
-    shapes3 = [[1, 1, 1], [2, 3, 1], [3, 2, 2]] if ck.quick else [list(s) for s in itertools.product([1, 2, 3], repeat=3)][::2]
-    shapes4 = [[1, 2, 1, 3]] if ck.quick else [[1, 2, 1, 3], [3, 3, 2, 1], [2, 2, 2, 2]]
+    shapes3 = ALL3[::3] if ck.quick else ALL3
+    shapes4 = [[1, 2, 1, 3], [3, 1, 2, 2]] if ck.quick else ALL4[::5]
     for shape in shapes3 + shapes4:
         nd = len(shape)
         scales = [None, [1.0] * nd, [1] * nd, [0.5, 1.0, 2.0, 4.0][:nd], [2.0] * nd, [1.0] * (nd - 1), [1.0] * (nd + 1)]
@@ -325,8 +329,7 @@ def time_axes(nd, pos, extra=0):
 
 
 def gen_time(ck):
-    shapes = [[1, 1, 1], [2, 1, 3], [3, 2, 2], [1, 2, 1, 2], [2, 3, 1, 1]] if ck.quick else \
-        [list(s) for s in itertools.product([1, 2, 3], repeat=3)][::3] + [[1, 2, 1, 2], [2, 3, 1, 1], [3, 1, 2, 2], [2, 2, 2, 3]]
+    shapes = ALL3[::2] + [[1, 2, 1, 2], [2, 3, 1, 1], [3, 1, 2, 3]] if ck.quick else ALL3 + ALL4[::4]
     for shape in shapes:
         nd = len(shape)
         for mode in (0, 1):
@@ -360,8 +363,7 @@ def gen_time(ck):
 
 
 def gen_coords(ck):
-    shapes = [[1, 1, 1], [2, 1, 3], [3, 2, 2], [1, 2, 1, 2]] if ck.quick else \
-        [list(s) for s in itertools.product([1, 2, 3], repeat=3)][::2] + [[1, 2, 1, 2], [2, 3, 1, 1], [3, 1, 2, 2]]
+    shapes = ALL3 + [[1, 2, 1, 2], [2, 3, 1, 1], [3, 1, 2, 3]] if ck.quick else ALL3 + ALL4
     for shape in shapes:
         nd = len(shape)
         flat = labels_for(shape, 0)
@@ -495,7 +497,7 @@ def run(ck: common.Check):
                "1..4 + (graph_is_in_seg_bounds) label volumes of rank 3 and 4 with extents 1..3, axes lists of length rank-1..rank+1 "
                "with every maximum in {None,0,extent-1,extent} (scaled), 7 scale vectors incl. wrong lengths + (time points) time axis "
                "in every position / absent / ambiguous / beyond the rank, time points in {-extent,-1,0,extent-1,extent} singly and in "
-               "pairs/triples with present and absent labels + (coords) every pixel tuple in {-1,0,max,max+1}^rank under 4 scale "
+               "pairs/triples with present and absent labels [quick: every 2nd rank-3 shape + 3 rank-4; thorough: all 27 + every 4th rank-4] + (coords) [quick: all 27 rank-3 shapes + 3 rank-4; thorough: all 27 + all 81] every pixel tuple in {-1,0,max,max+1}^rank under 4 scale "
                "vectors (dyadic), half-pixel and just-below-zero offsets, malformed lengths + seeded random volumes with dyadic and "
                "non-dyadic scales; non-trivial = all cases except the empty lists; distinct = distinct canonical JSON")
     cases = list(corpus())
